@@ -59,7 +59,7 @@ class TLCResult(dict):
 _RE_STATES = re.compile(r"^(\d+) states generated, (\d+) distinct states found, (\d+) states left on queue", re.M)
 _RE_DEPTH = re.compile(r"The depth of the complete state graph search is (\d+)")
 _RE_INV = re.compile(r"Invariant (\S+) is violated")
-_RE_PROP = re.compile(r"(Action property|Temporal properties|property) (\S+)? ?(is|were) violated")
+_RE_PROP = re.compile(r"(Action property|Temporal properties|Temporal property|property) (\S+)? ?(is|was|were) violated")
 
 
 def tlc(module, cfg, workdir=None, workers=None, timeout=600, extra=(), files=None,
